@@ -205,6 +205,7 @@ func VerifHarness_C08_proposal_message() {
 		vAssert(vSigValid(prop.Signature), "accepted-proposal-has-valid-proposer-signature")
 		vAssert(prop.POLRound >= -1 && prop.POLRound < prop.Round, "accepted-proposal-has-sane-pol-round")
 		vAssert(prop.BlockPartsHeader.Total >= 1, "accepted-proposal-has-positive-parts-total")
+		vAssert(before.Step < RoundStepCommit, "no-proposal-is-adopted-once-the-node-is-committing")
 	}
 	vC08MoveOn(h)
 }
